@@ -85,6 +85,33 @@ def main(tier, seed):
             if abs(numpy.linalg.det(Pm) - sgn) > 1e-9:
                 rep.violation('piv:sign', 'piv2det(%r) = %r but det(piv2mat) = %r' % (piv, sgn, numpy.linalg.det(Pm)), dict(kind='piv', piv=piv))
 
+    # ------------------------------------------------ pivots of a UTPM: one pivot vector PER DIRECTION (lu2 factors each base point on its own)
+    for _ in range(40 if tier == 'quick' else 600):
+        N = rng.randint(2, 4); P = rng.randint(2, 3); D = rng.randint(1, 3)
+        pivs = [[rng.randint(i, N - 1) for i in range(N)] for _ in range(P)]
+        pd_ = numpy.zeros((D, P, N), dtype=int); pd_[0] = pivs
+        rep.count('pivots:UTPM:P', P)
+        rep.case(('piv-utpm', N, P, D, repr(pivs)), len(set(map(tuple, pivs))) > 1, sample=dict(check='UTPM.piv2mat / piv2det per direction', pivots=pivs))
+        try:
+            W = numpy.asarray(UTPM.piv2mat(UTPM(pd_.copy())).data); sg = numpy.asarray(UTPM.piv2det(UTPM(pd_.copy())).data)
+            # lu2 on base points that need these interchanges, det through the pivots
+            A = numpy.zeros((D, P, N, N))
+            for p in range(P):
+                L = numpy.tril(numpy.array([[rng.randint(-3, 3) / 4 for _ in range(N)] for _ in range(N)]), -1) + numpy.eye(N)
+                Um = numpy.triu(numpy.array([[rng.randint(-2, 2) / 2 for _ in range(N)] for _ in range(N)]), 1) + numpy.diag([rng.choice([2., 3., -2.]) for _ in range(N)])
+                A[0, p] = U.piv2mat(numpy.array(pivs[p])) @ L @ Um
+            PIV, Lu, Uu = UTPM.lu2(UTPM(A.copy()))
+            W2 = numpy.asarray(UTPM.piv2mat(PIV).data)
+        except Exception as e:
+            rep.violation('piv:utpm:exception', 'UTPM.piv2mat / piv2det / lu2 raises %r' % (e,), dict(kind='piv-utpm', pivots=pivs, exc=repr(e))); continue
+        for p in range(P):
+            if not (numpy.array_equal(W[0, p], U.piv2mat(numpy.array(pivs[p]))) and not W[1:].any()):
+                rep.violation('piv:utpm:piv2mat', 'UTPM.piv2mat: direction %d is not the permutation matrix of ITS pivot vector %r' % (p, pivs[p]), dict(kind='piv-utpm', pivots=pivs)); break
+            if not (sg[0, p] == U.piv2det(numpy.array(pivs[p])) and not sg[1:].any()):
+                rep.violation('piv:utpm:piv2det', 'UTPM.piv2det: direction %d is not the sign of ITS pivot vector %r' % (p, pivs[p]), dict(kind='piv-utpm', pivots=pivs)); break
+            if not numpy.allclose(W2[0, p] @ numpy.asarray(Lu.data)[0, p] @ numpy.asarray(Uu.data)[0, p], A[0, p], atol=1e-12):
+                rep.violation('piv:utpm:PLU', 'UTPM.piv2mat(PIV) L U != A in direction %d for the PIV lu2 returned' % p, dict(kind='piv-utpm', pivots=pivs, A=A.tolist())); break
+
     # ------------------------------------------------ base point + directions <-> polynomial
     n = 60 if tier == 'quick' else 800
     for _ in range(n):
